@@ -7,6 +7,8 @@ mod gen;
 mod props;
 mod refhttp;
 mod transport;
+mod tunnel;
+mod urlgen;
 
 use engine::main_for;
 
@@ -20,8 +22,17 @@ fn scrub_env() {
     }
 }
 
+/// The client builds a new TLS connector (and with OpenSSL re-parses the whole system CA bundle, ~150 ms) for every
+/// connection. The fixtures never chain to the system store, so it is replaced by a one-certificate stand-in.
+fn small_trust_store() {
+    let dir = engine::verif_root().join("fixtures/certs");
+    std::env::set_var("SSL_CERT_FILE", dir.join("dummyroot.pem"));
+    std::env::set_var("SSL_CERT_DIR", dir.join("empty-dir"));
+}
+
 fn main() {
     scrub_env();
+    small_trust_store();
     let args: Vec<String> = std::env::args().skip(1).collect();
     let Some(id) = args.first().cloned() else {
         eprintln!("usage: vcheck <ID> quick|thorough|--replay <path>");
@@ -35,6 +46,8 @@ fn main() {
         "C04" => main_for::<props::c04::C04>(rest),
         "C05" => main_for::<props::c05::C05>(rest),
         "C06" => main_for::<props::c06::C06>(rest),
+        "C07" => main_for::<props::c07::C07>(rest),
+        "C08" => main_for::<props::c08::C08>(rest),
         "C18" => {
             props::c18::self_check();
             main_for::<props::c18::C18>(rest)
